@@ -67,8 +67,8 @@ def req_history(h):
     sock, lb, fields, variants = _req_socket(h, peers=1)
     AIE2 = "socket::patterns::addressed_ingress::AddressedIngressEngine"
     PMS = "socket::patterns::ready_pipe_queue::PipeMessageSender"
-    eng = Ref(Cell(h.method(AIE2, "new", 4), "ingress"), ())
-    snd = Ref(Cell(h.method(AIE2, "register_pipe", eng, 0, 4, 1), "s0"), ())
+    eng = Ref(Cell(h.method(AIE2, "new", max(4, k)), "ingress"), ())
+    snd = Ref(Cell(h.method(AIE2, "register_pipe", eng, 0, max(4, k), 1), "s0"), ())
     sock.load().f[fields.index("ingress_engine")] = eng.load()
     # RCVTIMEO = 0 in the core's options
     core = sock.load().f[fields.index("core")].load()
@@ -186,8 +186,8 @@ def rep_history(h):
     k = h.params.get("ops", 4)
     AIE2 = "socket::patterns::addressed_ingress::AddressedIngressEngine"
     PMS = "socket::patterns::ready_pipe_queue::PipeMessageSender"
-    eng = Ref(Cell(h.method(AIE2, "new", 4), "ingress"), ())
-    snd = [Ref(Cell(h.method(AIE2, "register_pipe", eng, p, 4, 1), f"s{p}"), ()) for p in range(2)]
+    eng = Ref(Cell(h.method(AIE2, "new", max(4, k)), "ingress"), ())
+    snd = [Ref(Cell(h.method(AIE2, "register_pipe", eng, p, max(4, k), 1), f"s{p}"), ()) for p in range(2)]
     uris = [string("uA"), string("uB")]
     # core: is_running, options.rcvtimeo = 0, pipe_read_id_to_endpoint_uri, endpoints
     cf = prog.struct_fields("socket::core::SocketCore")
